@@ -7,7 +7,7 @@ ID = "C02"
 PROPS = "Props/C02.v"
 GEN = ["sm2", "sm2sig"]      # curve constants (sm2/p256.go) and default_uid / limits / mode values (sm2/sm2.go)
 LEGS = [{"driver": "c02", "runner": ("sm2", "Extract/ExtractSM2.v", "Sm2_model")}]
-COQ_TIMEOUT = 2400
+COQ_TIMEOUT = 5400
 
 TECHNIQUE = ("Coq proof over an executable model of Encrypt / Decrypt / EncryptAsn1 / DecryptAsn1 / CipherMarshal / CipherUnmarshal / kdf "
              "(all keys, plaintexts, streams, byte strings, both orderings); model tied to /repo by differential runs of the extracted model; "
